@@ -150,6 +150,15 @@ class Loops:
             lab += f"#{next(I.counter)}"
         vars_, consts = set(), set()
         self._roots(body, vars_, consts)
+        if for_ctx is not None:
+            # closures of the sequence's adaptors (map, take_while ...) run once per element: what they assign is carried too
+            def seq_closures(x):
+                if isinstance(x, FnV) and x.fn in I.F.bodies:
+                    self._roots(I.F.bodies[x.fn]["body"], vars_, consts)
+                elif isinstance(x, tuple):
+                    for y in x:
+                        seq_closures(y)
+            seq_closures(for_ctx["seq"])
         # carried env keys
         keys = []
         for var in sorted(vars_):
